@@ -142,8 +142,10 @@ func (V *Verifier) runClosures(prop string) []closureResult {
 						}
 					case "callers":
 						if ci, ok := in.(ssa.CallInstruction); ok {
-							if callee := ci.Common().StaticCallee(); callee != nil && callee.Pkg != nil && fnKeyOf(callee) == target && callee.Pkg.Pkg.Name() == pkgName {
-								hit = true
+							if callee := ci.Common().StaticCallee(); callee != nil && callee.Pkg != nil {
+								if (fnKeyOf(callee) == target && callee.Pkg.Pkg.Name() == pkgName) || callee.Pkg.Pkg.Name()+"."+fnKeyOf(callee) == target {
+									hit = true
+								}
 							}
 						}
 						// the function used as a value (method expression, closure) also counts
